@@ -318,6 +318,18 @@ def run(ctx):
     for i, (name, text) in enumerate(workloads.sample_files()):
         if i % ctx.nshards == ctx.shard:
             check(ctx, text, 'sample:' + name)
+    # trees more than a hundred levels deep (the walkers must not stop anywhere): nested quotes, lists, emphasis
+    deep = []
+    for n in (40, 99, 105, 120):
+        deep.append(('deep-quotes-%d' % n, '>' * n + ' a *b* `c`\n'))
+    for n in (50, 55, 60):
+        deep.append(('deep-lists-%d' % n, ''.join(' ' * (2 * k) + '- x\n' for k in range(n))))
+        deep.append(('deep-mixed-%d' % n, '> - ' * n + 'a\n'))
+    for n in (60, 99, 110):
+        deep.append(('deep-emphasis-%d' % n, '*a **b ' * (n // 2) + 'c' + '** d*' * (n // 2) + '\n'))
+    for i, (name, text) in enumerate(deep):
+        if i % ctx.nshards == ctx.shard:
+            check(ctx, text, name)
     try:
         from .. import gen
     except ImportError:
